@@ -200,3 +200,17 @@ Lemma deadlines_purge_free :
   deadlines_okb 120 300 60 = true /\ deadlines_okb 60 300 120 = true /\ deadlines_okb 120 300 3660 = true /\
   deadlines_okb 300 120 3660 = false /\ deadlines_okb default_probe default_offline default_purge = true.
 Proof. repeat split; reflexivity. Qed.
+
+(* time enters every rule of the model and of the reference only through comparisons  last + deadline < now  (ageing,
+   removal).  Such a verdict is monotone in now - last, so when it is the same at the two extreme assignments of the
+   measured intervals (stamp earliest / purge latest, and stamp latest / purge earliest) it is the same for every instant
+   inside them: the justification of the real-time kind rt (Model/TablesShow.v, rt_model) *)
+Theorem time_bracket_proof (dl last_lo last last_hi now_lo now now_hi : Z) :
+  (last_lo <= last <= last_hi)%Z -> (now_lo <= now <= now_hi)%Z ->
+  (last_lo + dl <? now_hi)%Z = (last_hi + dl <? now_lo)%Z ->
+  (last + dl <? now)%Z = (last_hi + dl <? now_lo)%Z.
+Proof.
+  intros L N E. destruct (Z.ltb_spec (last_hi + dl) now_lo) as [A|A].
+  - apply Z.ltb_lt. lia.
+  - apply Z.ltb_ge. apply Z.ltb_ge in E. lia.
+Qed.
